@@ -5,8 +5,8 @@
 #include <netinet/in.h>
 #include <sys/socket.h>
 
-// every close-like call is guarded: it must return within 30 s of virtual time
-#define CLOSE_BOUND_NS 30000000000ull
+// every close-like call is guarded: it must return within 10 s of virtual time
+#define CLOSE_BOUND_NS 10000000000ull
 #define BOUNDED_CALL(var, call)                                                    \
 	do {                                                                       \
 		Bounded bounded_guard_("C10", "close_hang", CLOSE_BOUND_NS, "%s", #call); \
@@ -67,14 +67,18 @@ struct World {
 	volatile int     closing;
 	std::vector<uint32_t> pipes; // pipe ids of A seen in ADD_POST
 	volatile int     peer_stop;
+	uint64_t         cb_delay_ns; // a slow ADD_POST callback (keeps the listener from accepting meanwhile)
 };
 
 static void
 pipe_cb(nng_pipe p, nng_pipe_ev ev, void *arg)
 {
 	World *w = (World *) arg;
-	if (ev == NNG_PIPE_EV_ADD_POST)
+	if (ev == NNG_PIPE_EV_ADD_POST) {
 		w->pipes.push_back((uint32_t) nng_pipe_id(p));
+		if (w->cb_delay_ns)
+			sim_sleep_ns(w->cb_delay_ns);
+	}
 }
 
 static bool
@@ -279,6 +283,7 @@ close_run(Params *p)
 	w.closing     = 0;
 	w.peer_stop   = 0;
 	w.have_d = w.have_l = false;
+	w.cb_delay_ns = 0;
 	MUST(w.pp->open_a(&w.a));
 	MUST(w.pp->open_b(&w.b));
 	MUST(nng_pipe_notify(w.a, NNG_PIPE_EV_ADD_POST, pipe_cb, &w));
@@ -366,6 +371,26 @@ close_run(Params *p)
 	for (auto o : w.ops)
 		sim_spawn("op", op_task, o, 0);
 	sim_sleep_ns((uint64_t) W(0, 4000) * 1000);
+
+	// optionally more peers arrive just now, through a slow connection callback:
+	// their connections finish negotiating while the listener cannot accept them
+	std::vector<nng_socket> extra;
+	if (a_listens && W(0, 3) == 0) {
+		w.cb_delay_ns = (uint64_t) W(1, 30) * 1000000ull;
+		int ne = 1 + (int) W(0, 2);
+		for (int i = 0; i < ne; i++) {
+			nng_socket x;
+			if (w.pp->open_b(&x) != 0)
+				break;
+			nng_socket_set_ms(x, NNG_OPT_RECONNMINT, 100);
+			nng_socket_set_ms(x, NNG_OPT_RECONNMAXT, 100);
+			(void) nng_dial(x, url.c_str(), NULL, NNG_FLAG_NONBLOCK);
+			extra.push_back(x);
+		}
+		sim_probe("c10_extra_peers_arriving");
+		if (W(0, 1))
+			sim_sleep_ns((uint64_t) W(0, 4000) * 1000);
+	}
 
 	// what to close
 	long target = W(0, 5); // 0,1 socket; 2 ctx; 3 endpoint; 4 pipe; 5 socket twice concurrently
@@ -521,6 +546,11 @@ close_run(Params *p)
 	w.peer_stop = 1;
 	sim_join(peer);
 	sim_join_all();
+	for (auto x : extra) {
+		int rvx;
+		BOUNDED_CALL(rvx, nng_socket_close(x));
+		(void) rvx;
+	}
 	if (have_hole)
 		simnet_blackhole(0x7f000001u, (uint16_t) (5000 + 71), 0);
 	if (have_hole2)
